@@ -19,7 +19,7 @@ def main():
         i = args.index("--tier"); tier = args[i + 1]; del args[i:i + 2]
     scratch = "--scratch" in args
     names = [a for a in args if not a.startswith("--")] or sorted(d for d in os.listdir(SEEDED) if os.path.isdir(os.path.join(SEEDED, d)))
-    SCR = "/scratch/seedrun"
+    SCR = os.environ.get("VERIF_SCRATCH", "/scratch/seedrun")
     if scratch:
         # run against a scratch copy of /repo (cargo paths override) so that /repo itself is not touched
         os.makedirs("/scratch", exist_ok=True)
